@@ -119,6 +119,9 @@ def run(F, rep, tier):
     entry_agreement(F, rep)
     C11.persistence_rule(F, G, rep)
     compression_rule(F, rep)
+    # absent metadata stays absent through .slpp (null -> None, object -> Some(map), slot takes the Option unchanged)
+    from props import C16
+    C16.absence_rule(F, rep)
     # positive control: an entry renamed on one side must be reported
     ents = [e["name"] for e in peppifmt.writer_entries(F)]
     arms, m, loop = peppifmt.reader_arms(F)
